@@ -58,6 +58,8 @@ def reduction_over(fn, n, op):
     # follow a local
     if n.k == "path" and "::" not in n["path"]:
         sites = _let_sites(fn, n)
+        if len(sites) == 1 and _tuple_elem(sites[0]) is not None:
+            return reduction_over(fn, _tuple_elem(sites[0]), op)
         if len(sites) == 1 and sites[0][-1] == ():
             let = sites[0][1]
             name = n["path"]
@@ -177,6 +179,21 @@ def _loop_accumulate(fn, let, name, op):
     return res
 
 
+def _tuple_elem(site):
+    """for a binding site `let (a, b, ..) = E` with selector (i,): the i-th element of E when E (or its tail through blocks) is a tuple literal"""
+    if site[-1] == () or len(site[-1]) != 1 or not isinstance(site[-1][0], int) or site[1].get("init") is None:
+        return None
+    e = strip(site[1]["init"])
+    while isinstance(e, Node) and e.k == "block":
+        st = e["stmts"]
+        if not st or st[-1].k != "expr_stmt" or st[-1].get("semi"):
+            return None
+        e = strip(st[-1]["e"])
+    if isinstance(e, Node) and e.k == "tuple" and site[-1][0] < len(e["elems"]):
+        return e["elems"][site[-1][0]]
+    return None
+
+
 def _let_sites(fn, n):
     """the `let` that binds the local named by path node n at that point (scope- and shadowing-aware); [] if it is not a let"""
     try:
@@ -198,6 +215,8 @@ def first_of(fn, n):
     n = _unwrapish(n)
     if isinstance(n, Node) and n.k == "path" and "::" not in n["path"] and chain == []:
         sites = _let_sites(fn, n)
+        if len(sites) == 1 and _tuple_elem(sites[0]) is not None:
+            return first_of(fn, _tuple_elem(sites[0]))
         if len(sites) == 1 and sites[0][-1] == () and sites[0][1].get("init") is not None:
             return first_of(fn, sites[0][1]["init"])
         return None
@@ -224,6 +243,11 @@ def last_of(fn, n):
     n = _unwrapish(n)
     if isinstance(n, Node) and n.k == "path" and "::" not in n["path"]:
         sites = _let_sites(fn, n)
+        if len(sites) == 1 and _tuple_elem(sites[0]) is not None:
+            r = last_of(fn, _tuple_elem(sites[0]))
+            if r is not None:
+                return (r[0], r[1] + list(reversed(chain)))
+            return None
         if len(sites) == 1 and sites[0][-1] == () and sites[0][1].get("init") is not None:
             r = last_of(fn, sites[0][1]["init"])
             if r is not None:
